@@ -1000,6 +1000,8 @@ _OFFSET_GUARD = ("                    offset = strio.tell() + Message.headerSize
                  "                    # written further into the message cannot be referred to.\n                    if offset < 0x4000:\n                        compDict[name] = offset\n")
 
 MUTANTS = [
+    Mutant("sections-chained-in-the-wrong-order", DNS, "        for q in self.queries:\n            q.encode(body_tmp, compDict)\n        for q in self.answers:\n            q.encode(body_tmp, compDict)\n        for q in self.authority:\n            q.encode(body_tmp, compDict)\n        for q in self.additional:\n            q.encode(body_tmp, compDict)\n",
+           "        for entry in chain(self.queries, self.answers, self.additional, self.authority):\n            entry.encode(body_tmp, compDict)\n", expect_rule="roundtrip/sections"),
     # conditional / computed-length fields: writer and reader must agree for every value of the field that determines them
     Mutant("a6-suffix-guard-tests-the-prefix-length", DNS, "        if self.bytes:\n            strio.write(self.suffix[-self.bytes :])\n", "        if self.prefixLen < 128:\n            strio.write(self.suffix[-self.bytes :])\n",
            expect_rule="roundtrip/a6-prefix-lengths"),
@@ -1067,6 +1069,10 @@ MUTANTS = [
 ]
 
 SILENT = [
+    Silent("sections-encoded-through-one-lazy-chain", DNS, "        for q in self.queries:\n            q.encode(body_tmp, compDict)\n        for q in self.answers:\n            q.encode(body_tmp, compDict)\n        for q in self.authority:\n            q.encode(body_tmp, compDict)\n        for q in self.additional:\n            q.encode(body_tmp, compDict)\n",
+           "        for entry in chain.from_iterable(getattr(self, section) for section in (\"queries\", \"answers\", \"authority\", \"additional\")):\n            entry.encode(body_tmp, compDict)\n"),
+    Silent("section-counts-unpacked-into-the-header", DNS, "                len(self.queries),\n                len(self.answers),\n                len(self.authority),\n                len(self.additional),\n",
+           "                *[len(getattr(self, section)) for section in (\"queries\", \"answers\", \"authority\", \"additional\")],\n"),
     Silent("a6-suffix-conditional-expression", DNS, "        if self.bytes:\n            strio.write(self.suffix[-self.bytes :])\n", "        strio.write(self.suffix[-self.bytes :] if self.bytes > 0 else b\"\")\n"),
     Silent("a6-suffix-sliced-from-the-front-unguarded", DNS, "        if self.bytes:\n            strio.write(self.suffix[-self.bytes :])\n", "        strio.write(self.suffix[16 - self.bytes :])\n"),
     Silent("a6-reader-takes-zero-octets-unguarded", DNS, "        if self.bytes:\n            self.suffix = b\"\\x00\" * (16 - self.bytes) + readPrecisely(strio, self.bytes)\n",
